@@ -100,3 +100,58 @@ def octal_with_zero_digit(s):
 
 def _kf_scope():
     """Frame whose globals (this module) are visible to known-finding predicates."""
+
+
+def ref_mof_string_decode(lit):
+    """DSP0004 stringValue decoding of ONE quoted literal (including its quotes):
+    \\b \\t \\n \\f \\r \\" \\' \\\\ and \\x / \\X followed by 1..4 hex digits (as many as are there, at most 4)."""
+    s = lit[1:len(lit) - 1]
+    out = ''
+    i = 0
+    n = len(s)
+    while i < n:
+        c = s[i]
+        if c != '\\':
+            out = out + c
+            i += 1
+            continue
+        e = s[i + 1]
+        if e == 'b':
+            out = out + '\b'
+        elif e == 't':
+            out = out + '\t'
+        elif e == 'n':
+            out = out + '\n'
+        elif e == 'f':
+            out = out + '\f'
+        elif e == 'r':
+            out = out + '\r'
+        elif e == '"':
+            out = out + '"'
+        elif e == "'":
+            out = out + "'"
+        elif e == '\\':
+            out = out + '\\'
+        else:
+            # hex escape (the token grammar guarantees x/X and at least one hex digit)
+            val = 0
+            j = i + 2
+            k = 0
+            while k < 4 and j < n:
+                o = ord(s[j])
+                if 48 <= o <= 57:
+                    d = o - 48
+                elif 97 <= o <= 102:
+                    d = o - 87
+                elif 65 <= o <= 70:
+                    d = o - 55
+                else:
+                    break
+                val = val * 16 + d
+                j += 1
+                k += 1
+            out = out + chr(val)
+            i = j
+            continue
+        i += 2
+    return out
